@@ -69,6 +69,21 @@ fn sample_of(rng: &mut Rng, ids: &[u32], n: usize) -> Vec<u32> {
 }
 
 fn c06(rng: &mut Rng, tier: &str, idx: usize) -> Case {
+    if idx % 32 == 19 {
+        // populations far beyond the shipped ontology (ln C(N, n) near the f64 range in a naive
+        // product), small and mid-sized samples
+        let mut c = Case::new("flat-huge");
+        for _ in 0..if tier == "quick" { 2 } else { 4 } {
+            let big_n = *rng.pick(&[50_000u32, 87_000, 100_000, 120_000, 200_000, 400_000]);
+            let n = *rng.pick(&[10u32, 60, 86, 88, 90, 91, 120, 300, 1000]);
+            let big_k = *rng.pick(&[1u32, 3, 6, 40, 90, 500]);
+            let k = rng.range(1, big_k.min(n).min(8) as u64) as u32;
+            c.op(format!("enrichbig {big_n} {big_k} {n} {k}"));
+            c.stat("enrich_ops_huge_population", 1);
+        }
+        c.nontrivial = true;
+        return c;
+    }
     // spread the expensive classes over the worker threads (cases are dealt out in chunks)
     let p = if tier == "quick" { (idx % 4) * 16 + (idx / 4) % 16 } else { idx % 64 };
     let class = if tier != "quick" && p == 0 && idx % 640 != 0 { 2000 } else { c06_class(rng, p, tier) };
@@ -206,10 +221,18 @@ fn c06_hier(rng: &mut Rng) -> Case {
     let mut c = Case::new("hierarchical");
     let with_roots = rng.chance(1, 2);
     let max_terms = *rng.pick(&[6usize, 12, 25, 40]);
-    let (f, shape) = gen_facts(rng, &DagOpts { max_terms, with_roots, max_recs: 8 });
+    let (mut f, shape) = gen_facts(rng, &DagOpts { max_terms, with_roots, max_recs: 8 });
     c.stat(&format!("shape_{shape:?}"), 1);
     let (_, inh) = facts_stats(&f, &mut c);
-    facts_to_prog(rng, &f, &ProgOpts { shuffle: true, failing_permille: 0, build_defaults: with_roots, slot: 0 }, &mut c);
+    if with_roots && rng.chance(1, 2) {
+        // binary route: terms flagged obsolete / replaced keep their links and annotations
+        let flags = gen_flags(rng, &mut f);
+        c.stat("obsolete_or_replaced_terms", flags.len() as u64);
+        let fv = 2 + rng.below(2) as u8;
+        facts_to_fops(rng, &f, &flags, fv, 0, true, &mut c);
+    } else {
+        facts_to_prog(rng, &f, &ProgOpts { shuffle: true, failing_permille: 0, build_defaults: with_roots, slot: 0 }, &mut c);
+    }
     let ids: Vec<u32> = f.terms.iter().map(|t| t.0).collect();
     let mut summed = 0u64;
     for _ in 0..4 {
